@@ -4,6 +4,7 @@ named-tuple layouts). Everything here ends up in lean/PsutilModel/Generated/C08.
 consumed by `cfg` (Model/C08Gen.lean) → `cfg_good` (Props/C08.lean) and by the driver.
 """
 import ast
+import re
 
 from harness.common import extract
 from harness.common.extract import NotRecognised
@@ -252,6 +253,88 @@ def pct_scale(fn):
     return scale
 
 
+
+def sysinfo_c(snap):
+    """arch/linux/mem.c: (format string, [struct sysinfo members]) of the Py_BuildValue call in
+    psutil_linux_sysinfo(), comments stripped"""
+    src = snap.source("arch/linux/mem.c")
+    src = re.sub(r"/\*.*?\*/", "", src, flags=re.S)
+    src = re.sub(r"//[^\n]*", "", src)
+    m = re.search(r"psutil_linux_sysinfo\s*\(.*?\)\s*\{(.*?)\n\}", src, flags=re.S)
+    if not m:
+        raise NotRecognised("psutil_linux_sysinfo() not found in arch/linux/mem.c")
+    body = m.group(1)
+    if not re.search(r"struct\s+sysinfo\s+info\s*;", body) or not re.search(r"sysinfo\s*\(\s*&info\s*\)", body):
+        raise NotRecognised("psutil_linux_sysinfo(): `struct sysinfo info; sysinfo(&info)` not found")
+    calls = re.findall(r"Py_BuildValue\s*\(\s*\"([^\"]*)\"\s*,(.*?)\)\s*;", body, flags=re.S)
+    if len(calls) != 1:
+        raise NotRecognised("psutil_linux_sysinfo(): %d Py_BuildValue calls" % len(calls))
+    fmt, args = calls[0]
+    members = []
+    for a in args.split(","):
+        a = a.strip()
+        mm = re.fullmatch(r"info\.(\w+)", a)
+        if not mm:
+            raise NotRecognised("psutil_linux_sysinfo(): argument %r is not a plain member of info" % a)
+        members.append(mm.group(1))
+    return fmt, members
+
+
+def sysinfo_unpack(fn):
+    """names of `a, b, … = cext.linux_sysinfo()` in swap_memory()"""
+    hits = []
+    for n in ast.walk(fn):
+        if isinstance(n, ast.Assign) and len(n.targets) == 1 and isinstance(n.value, ast.Call) \
+                and E.dotted(n.value.func) == "cext.linux_sysinfo":
+            t = n.targets[0]
+            if not (isinstance(t, ast.Tuple) and all(isinstance(x, ast.Name) for x in t.elts)):
+                raise NotRecognised("cext.linux_sysinfo() is not unpacked into plain names")
+            hits.append([x.id for x in t.elts])
+    if len(hits) != 1:
+        raise NotRecognised("cext.linux_sysinfo() called %d times" % len(hits))
+    return hits[0]
+
+
+def times_unit(fn):
+    """targets of `x *= unit_multiplier`, source order"""
+    out = []
+    for n in ast.walk(fn):
+        if isinstance(n, ast.AugAssign) and isinstance(n.op, ast.Mult) and isinstance(n.target, ast.Name) \
+                and E.unparse(n.value) == "unit_multiplier":
+            out.append((_pos(n), n.target.id))
+    return [t for _, t in sorted(out)]
+
+
+def phymem_primed(fn):
+    """psutil.virtual_memory(): `global _TOTAL_PHYMEM; ret = _psplatform.virtual_memory();
+    _TOTAL_PHYMEM = ret.<attr>; return ret` → attr ("" when the global is not assigned)"""
+    has_global = any(isinstance(n, ast.Global) and "_TOTAL_PHYMEM" in n.names for n in ast.walk(fn))
+    assigns = [n for n in ast.walk(fn) if isinstance(n, ast.Assign) and len(n.targets) == 1
+               and E.dotted(n.targets[0]) == "_TOTAL_PHYMEM"]
+    if not assigns:
+        return ""
+    if len(assigns) != 1 or not has_global:
+        raise NotRecognised("_TOTAL_PHYMEM assigned %d times / global missing" % len(assigns))
+    v = assigns[0].value
+    rets = [n for n in ast.walk(fn) if isinstance(n, ast.Return)]
+    plat = [n for n in ast.walk(fn) if isinstance(n, ast.Assign) and len(n.targets) == 1
+            and E.unparse(n.value) == "_psplatform.virtual_memory()"]
+    if not (isinstance(v, ast.Attribute) and isinstance(v.value, ast.Name) and len(plat) == 1
+            and E.unparse(plat[0].targets[0]) == v.value.id and len(rets) == 1
+            and E.unparse(rets[0].value) == v.value.id):
+        raise NotRecognised("_TOTAL_PHYMEM = %s: not an attribute of the returned platform result" % E.unparse(v))
+    return v.attr
+
+
+def mem_percent_total_expr(fn):
+    """Process.memory_percent(): the expression assigned to total_phymem"""
+    hits = [n for n in ast.walk(fn) if isinstance(n, ast.Assign) and len(n.targets) == 1
+            and E.unparse(n.targets[0]) == "total_phymem"]
+    if len(hits) != 1:
+        raise NotRecognised("total_phymem assigned %d times in memory_percent()" % len(hits))
+    return E.unparse(hits[0].value)
+
+
 VM_TARGETS = ["total", "free", "buffers", "cached", "shared", "active", "inactive", "slab", "avail"]
 CA_TARGETS = ["free", "fallback", "lru_active_file", "lru_inactive_file", "slab_reclaimable"]
 SW_TARGETS = ["total", "free"]
@@ -324,6 +407,21 @@ def facts(snap, F):
     F.try_add("sswapArgs", "List String",
               lambda: E.lean_list(call_args(fn("swap_memory"), "sswap", SSWAP_ARGS), ls),
               "local variables passed positionally to sswap(...)")
+
+    F.try_add("sysinfoCMembers", "List String", lambda: E.lean_list(sysinfo_c(snap)[1], ls),
+              "arch/linux/mem.c: members of `struct sysinfo` passed to Py_BuildValue, in order")
+    F.try_add("sysinfoCFormat", "String", lambda: ls(sysinfo_c(snap)[0]),
+              "arch/linux/mem.c: the Py_BuildValue format string")
+    F.try_add("sysinfoUnpack", "List String", lambda: E.lean_list(sysinfo_unpack(fn("swap_memory")), ls),
+              "swap_memory(): names the tuple of cext.linux_sysinfo() is unpacked into")
+    F.try_add("sysinfoTimesUnit", "List String", lambda: E.lean_list(times_unit(fn("swap_memory")), ls),
+              "swap_memory(): variables multiplied by unit_multiplier in the fallback")
+    ini = E.parse_module(snap, "__init__.py")
+    F.try_add("phymemPrimed", "String", lambda: ls(phymem_primed(E.find_def(ini, "virtual_memory"))),
+              "psutil.virtual_memory(): attribute of the platform result stored in the global _TOTAL_PHYMEM")
+    F.try_add("memPercentTotalExpr", "String",
+              lambda: ls(mem_percent_total_expr(E.find_def(ini, "memory_percent", cls="Process"))),
+              "Process.memory_percent(): the expression giving total_phymem")
 
     def fields_of(modname, tname):
         def go():
